@@ -58,8 +58,8 @@ func (l *Lexer) lexToSpaceTokenEat(currentChar rune) strings.Builder {
 	for {
 		char := l.reader.Read()
 
-		if unicode.IsSpace(char) {
-			if char != '\n' {
+		if unicode.IsSpace(char) || char == base.NIL {
+			if char != '\n' && char != base.NIL {
 				l.IsSpace = true
 			}
 
@@ -182,7 +182,7 @@ func (l *Lexer) lexIdentifier(currentChar rune) {
 		}
 
 		if !isIdentifierChar(char) {
-			if strings.Contains(buf.String(), ":\"") && char != '\n' && char != '"' {
+			if strings.Contains(buf.String(), ":\"") && char != '\n' && char != '"' && char != base.NIL {
 				buf.WriteRune(char)
 				continue
 			}
@@ -209,7 +209,7 @@ func (l *Lexer) lexString(start rune) {
 	for {
 		char := l.reader.Read()
 
-		if char == start {
+		if char == start || char == base.NIL {
 			break
 		}
 
@@ -249,7 +249,7 @@ func (l *Lexer) skipLineComment() {
 	for {
 		char = l.reader.Read()
 
-		if char == '\n' {
+		if char == '\n' || char == base.NIL {
 			break
 		}
 
